@@ -158,12 +158,14 @@ func (m *Model) Run(inputs Tensors) (Tensors, error) {
 	}
 
 	tensors := make(Tensors)
-	for inputName, inputTensor := range inputs {
-		tensors[inputName] = inputTensor
-	}
 
 	for parameterName, parameterTensor := range m.parameters {
 		tensors[parameterName] = parameterTensor
+	}
+
+	// An initializer that is also a graph input is only a default: a value supplied by the caller wins.
+	for inputName, inputTensor := range inputs {
+		tensors[inputName] = inputTensor
 	}
 
 	for _, n := range m.mp.Graph.GetNode() {
